@@ -353,7 +353,31 @@ class Trace:
             setup(self, I, st)
         self.st0 = st
         I, res = run(prog, self.body, args=args, st=st, I=I, gargs=gargs)
-        self.res = res
+        # Ok(flag) with a flag the path has decided (e.g. `Ok(block.more)` behind `if block.more`) is Ok(true) / Ok(false)
+        self.res = [(s_, self._decide_ret(s_, rv_)) for s_, rv_ in res]
+
+    @staticmethod
+    def _decide_ret(s, rv):
+        from absdom import holds
+        if not (isinstance(rv, EnumV) and list(rv.variants) == [0]):
+            return rv
+        p = rv.variants[0]
+        b = p.fields[0] if isinstance(p, StructV) and len(p.fields) == 1 else None
+        if not isinstance(b, IntV) or b.ty != (1, False) or b.aff.is_const():
+            return rv
+        val = None
+        if b.cond is not None:
+            if holds(s, b.cond, True):
+                val = 1
+            elif holds(s, b.cond, False):
+                val = 0
+        if val is None:
+            lo, hi = s.range(b.aff)
+            if lo == hi:
+                val = lo
+        if val is None:
+            return rv
+        return EnumV(rv.path, {0: StructV([IntV(Aff.const(val), b.ty, cond=("const", bool(val)))])}, rv.ty)
 
     def ret_kind(self, rv):
         """'true' / 'false' / 'err' / '?' for Result<bool, HandlingError>"""
